@@ -86,6 +86,7 @@ def rect_case(mon, rng, label, order, m):
                 "slack": slack, "mode": mode}
         via = "dispatch" if rng.random() < 0.5 else "classmethod"
         mon.count("rect_events")
+        e0 = P.NATURAL_SOLVER_ERRORS[0]
         try:
             ans = call_real(mon, order, P.mk_rect(lo1, hi1), P.mk_rect(l2, h2),
                             slack if sk == "zero" else np.asarray(slack), via)
@@ -172,6 +173,7 @@ def ell_case(mon, rng, label, order, m):
                 "a2": a2, "slack": slack, "mode": mode}
         via = "dispatch" if rng.random() < 0.5 else "classmethod"
         mon.count("ell_events")
+        e0 = P.NATURAL_SOLVER_ERRORS[0]
         try:
             ans = call_real(mon, order, P.mk_ell(c1, S1, a1), P.mk_ell(cc2, S2, a2),
                             slack if sk != "vector" else np.asarray(slack), via)
@@ -179,7 +181,7 @@ def ell_case(mon, rng, label, order, m):
             mon.violation(P.crash_mechanism(e), f"is_dominated raised {e!r}", case)
             continue
         h = case_hash("e", W, c1, S1, a1, cc2, S2, a2, np.asarray(slack, float))
-        P.judge(mon, "C09", "ell.is_dominated", ans, margin, margin, P.band("socp", mag), case, h,
+        P.judge(mon, "C09", "ell.is_dominated", ans, margin, margin, P.band("socp", mag, fallback=P.NATURAL_SOLVER_ERRORS[0] > e0), case, h,
                 f"ell/{label}/{mode}/slack-{sk}")
         if 2 <= len(mon.samples) < 4:
             mon.sample({**case, "oracle_margin": margin, "answer": bool(ans)})
